@@ -26,6 +26,7 @@ pub fn twins_exist() {
             let _ = crate::order::$m::ovr::entry_points::query;
             let _ = crate::order::$m::sv::BOTH_REPLY_ID;
             let _ = crate::order::$m::sv::SOLO_REPLY_ID;
+            let _ = crate::order::$m::sv::PL_REPLY_ID;
         };
     }
     eps!(fwd);
@@ -262,6 +263,9 @@ mod h {
                 let eb: u8 = kani::any();
                 kani::assume(eb < 128);
                 let solo: bool = kani::any();
+                // third name `pl`: success method WITHOUT data parameter + error method (error first in `rev`)
+                let pl: bool = kani::any();
+                kani::assume(!(pl && solo));
                 macro_rules! run {
                     ($m:ident) => {{
                         echo::reset();
@@ -272,7 +276,7 @@ mod h {
                         } else {
                             SubMsgResult::Err(one_char(eb))
                         };
-                        let id = if solo { $m::sv::SOLO_REPLY_ID } else { $m::sv::BOTH_REPLY_ID };
+                        let id = if pl { $m::sv::PL_REPLY_ID } else if solo { $m::sv::SOLO_REPLY_ID } else { $m::sv::BOTH_REPLY_ID };
                         let msg = Reply { id, payload: Binary::from(vec![pb]), gas_used: gas, result };
                         let r = $m::entry_points::reply(w.deps_mut(), i.env(), msg);
                         (echo::log(), r)
@@ -283,7 +287,9 @@ mod h {
                 assert!(log_eq(&la, &lb), "same reply method, same arguments in both orders");
                 assert!(out_eq(&ra, &rb), "same outcome in both orders");
                 // and it is the declared one (fwd is the reference order): success -> 7 / 12, failure -> 10 / pass-through
-                if !solo {
+                if pl {
+                    assert!(la.count == 1 && la.id == if ok { 13 } else { 14 });
+                } else if !solo {
                     assert!(la.count == 1 && la.id == if ok { 7 } else { 10 });
                 } else if ok {
                     assert!(la.count == 1 && la.id == 12);
@@ -293,6 +299,8 @@ mod h {
                 kani::cover!(!solo && ok && has_data, "success with data under the shared name");
                 kani::cover!(!solo && !ok, "failure under the shared name");
                 kani::cover!(solo && !ok, "uncovered failure");
+                kani::cover!(pl && ok, "success under the data-less shared name");
+                kani::cover!(pl && !ok, "failure under the data-less shared name");
                 core::mem::forget((ra, rb));
             }
         };
